@@ -26,7 +26,7 @@ RULE = ("one case = one NestedFrame (labels sorted / unsorted / repeated / strin
 ASSUMPTIONS = ["the truth value of one record under a condition is what plain pandas computes on a flat table of that record's row "
                "(pointwise-evaluator contract; NA counts as false)"]
 CORRESPONDENCE = "m_query_nested (Frame.v) vs NestedFrame.query"
-EXTRA_IMPORTS = "Frame"
+EXTRA_IMPORTS = "Frame Preflight"
 
 FIELD_NAMES_WEIRD = ["my f", "a-b", "x1", "class", "flux"]
 
@@ -63,6 +63,18 @@ def gen_cond(rng, fields, depth=0):
     if k == "str":
         return (rng.choice(["==", "!="]), ("field", rng.choice(strings)), ("sconst", rng.choice(["r", "g", "", "abc", "a=b"])))
     return ("==", ("field", rng.choice(bools)), ("const", rng.choice([True, False])))
+
+
+def to_qx(e, layer):
+    """the expression tree as Preflight.qx; every field of this sub-expression belongs to `layer` (0 = base)"""
+    k = e[0]
+    if k == "field":
+        return f"(QField {layer})"
+    if k in ("const", "sconst"):
+        return "QConst"
+    if k == "~":
+        return f"(QOp KUnary [{to_qx(e[1], layer)}])"
+    return f"(QOp KBinary [{to_qx(e[1], layer)}; {to_qx(e[2], layer)}])"
 
 
 def has_field(e):
@@ -157,13 +169,13 @@ def generate(ctx):
             arr = type(arr)(pa.chunked_array([pa.StructArray.from_arrays([c.field(j) for j in range(len(names))], names=names,
                                                                            mask=c.is_null()) for c in arr.chunked_array.chunks], type=st2))
         n = len(inp["rows"])
-        labels, label_kind = gen.gen_labels(rng, n)
+        labels, label_kind = gen.gen_labels(rng, n, rng.choice(["repeats", "str_repeats"]) if i % 10 == 6 else None)
         nf = NestedFrame({"x": list(range(n)), "y": [rng.choice(["p", "q", "r"]) for _ in range(n)],
                           "w": pd.array([rng.choice([1, 2, 2, 3, None]) for _ in range(n)], dtype=pd.ArrowDtype(pa.int64()))},
-                         index=labels)
-        nf[nest] = pd.Series(arr, index=labels, name=nest)
+                         index=gen.as_index(labels, label_kind))
+        nf[nest] = pd.Series(arr, index=nf.index, name=nest)
         other_rows = gen.gen_rows(rng, [("q", "int64")], n, max_len=2)
-        nf["other"] = pd.Series(type(arr)(pa.array(other_rows, type=gen.struct_type([("q", "int64")]))), index=labels, name="other")
+        nf["other"] = pd.Series(type(arr)(pa.array(other_rows, type=gen.struct_type([("q", "int64")]))), index=nf.index, name="other")
         rows = fo.rows_rm(inp["ca"])
         # (.nest.query_flat is NOT part of this property: the accessor knows rows only by label, re-packs by label with
         # pack_sorted_df_into_struct and therefore needs sorted, distinct labels; it is exercised only in that domain)
@@ -205,8 +217,9 @@ def generate(ctx):
                 nontrivial = False
             elif kind == "nested":
                 flat_mask = [b for m in masks[1] for b in m]
-                term = (f"(chk_rows (m_query_nested {fo.cq_nrows(rows)} {cq_bools(flat_mask)}) "
-                        f"(Ok (spec_filter_mask {fo.cq_nrows(rows)} {cq_list(cq_bools(m) for m in masks[1])})) {fo.cq_res_nrows(res)})")
+                term = (f"(match chk_rows (m_query_nested {fo.cq_nrows(rows)} {cq_bools(flat_mask)}) "
+                        f"(Ok (spec_filter_mask {fo.cq_nrows(rows)} {cq_list(cq_bools(m) for m in masks[1])})) {fo.cq_res_nrows(res)} with "
+                        f"[a; b; c; s] => [a && qroute_eqb (m_query_route {to_qx(e, 1)}) (QNest 1); b; c; s] | l => l end)")
                 nontrivial = any(flat_mask) and not all(flat_mask)
             else:
                 want = [[rec for rec, b in zip(r or [], m) if b] for r, m in zip(rows, masks[1])]
@@ -237,22 +250,37 @@ def generate(ctx):
                 term = f"[true; {cq_bool(res[0] == 'err')}; true; true]"
                 nontrivial = False
             else:
-                term = (f"(chk_rows (Ok (spec_select_rows {fo.cq_nrows(rows)} {cq_bools(mask[1])})) "
-                        f"(Ok (spec_select_rows {fo.cq_nrows(rows)} {cq_bools(mask[1])})) {fo.cq_res_nrows(res)})")
+                term = (f"(match chk_rows (Ok (spec_select_rows {fo.cq_nrows(rows)} {cq_bools(mask[1])})) "
+                        f"(Ok (spec_select_rows {fo.cq_nrows(rows)} {cq_bools(mask[1])})) {fo.cq_res_nrows(res)} with "
+                        f"[a; b; c; s] => [a && qroute_eqb (m_query_route {to_qx(e, 0)}) QBase; b; c; s] | l => l end)")
                 nontrivial = any(mask[1]) and not all(mask[1])
         else:
             e1 = gen_cond(rng, fields)
             if e1 is None:
                 continue
             e2 = gen_cond(rng, [("x", "int64"), ("w", "int64")])
+            # one side or the other under a unary operator, at the top or one level down
+            if rng.random() < 0.5:
+                e1 = ("~", e1)
+            if rng.random() < 0.3:
+                e2 = ("~", e2)
             if rng.random() < 0.5:
                 text = f"({render(e1, nested_ref(nest, quote))}) & ({render(e2, plain_ref)})"
+                qx = f"(QOp KBinary [{to_qx(e1, 1)}; {to_qx(e2, 0)}])"
             else:
-                text = f"({render(e1, nested_ref(nest, quote))}) | ({render(('==', ('field', 'q'), ('const', 1)), nested_ref('other', 'none'))})"
+                e3 = ('==', ('field', 'q'), ('const', 1))
+                if rng.random() < 0.5:
+                    e3 = ("~", e3)
+                text = f"({render(e1, nested_ref(nest, quote))}) | ({render(e3, nested_ref('other', 'none'))})"
+                qx = f"(QOp KBinary [{to_qx(e1, 1)}; {to_qx(e3, 2)}])"
+            if rng.random() < 0.3:
+                text, qx = f"~({text})", f"(QOp KUnary [{qx}])"
             snap = fo.snapshot(nf)
             res = attempt(lambda: nf.query(text))
             same = fo.snapshot(nf) == snap
-            term = f"[true; {cq_bool(res[0] == 'err' and same)}; true; true]"
+            refused = res[0] == "err" and "multiple" in str(res[1]).lower() or res[0] == "err"
+            term = (f"[qroute_eqb (m_query_route {qx}) (if {cq_bool(res[0] == 'err')} then QRefuse else QBase); "
+                    f"{cq_bool(res[0] == 'err' and same)}; true; true]")
             nontrivial = True
         cases.append({
             "stream": "query", "op": "query_" + kind, "term": term,
